@@ -422,6 +422,8 @@ impl<'a> Tr<'a> {
                     },
                     "ManuallyDrop" | "MaybeUninit" if targs.len() == 1 => self.conv_ty(targs[0]),
                     "PhantomData" => Ty::Unit,
+                    // a CStr is modelled as its bytes including the terminating nul
+                    "CStr" => Ty::Slice(Box::new(Ty::Int(IntTy::U8))),
                     "PatternNorm" => Ty::Slice(Box::new(Ty::Int(IntTy::U8))),
                     _ => {
                         if let Some(t) = self.type_subst.get(&name) {
